@@ -63,6 +63,30 @@ def acc(index, rep):
               loc=loc(RMNT, fn))
     nested_rets = [r for r in walk_no_nested(fn) if isinstance(r, ast.Return) and r not in fn.body]
     rep.check(not nested_rets, rule, "return:single", "an early return skips part of the aggregation", loc=loc(RMNT, fn))
+    # every country has its own entry in the returned results: the key is a column of the country's row as it stands - a name passed through
+    # a clean-up or shortening first can be the same for two countries, and the second then overwrites the first
+    res_name = norm_src(ret0[0].value.elts[3])
+    from .core import Inliner
+    key_stores = [st for st in walk_no_nested(loop) if isinstance(st, ast.Assign) and len(st.targets) == 1 and isinstance(st.targets[0], ast.Subscript)
+                  and norm_src(st.targets[0].value) == res_name]
+    import re as _re15
+    row_var = loop.target.elts[1].id if isinstance(loop.target, ast.Tuple) and len(loop.target.elts) == 2 and isinstance(loop.target.elts[1], ast.Name) else None
+    for st in key_stores:
+        src = Inliner(fn).at(st).src(st.targets[0].slice)
+        def is_row(e_):
+            """the loop's row, possibly handed through the routines that return the (customised / verified) row"""
+            if isinstance(e_, ast.Name):
+                return row_var is None or e_.id == row_var
+            return isinstance(e_, ast.Call) and isinstance(e_.func, ast.Attribute) and e_.func.attr in ("apply_custom_parameters", "verify_country_data", "copy") \
+                and bool(e_.args or e_.func.attr == "copy") and is_row(e_.args[0] if e_.args else e_.func.value)
+        try:
+            k_ = ast.parse(src, mode="eval").body
+        except SyntaxError:
+            k_ = None
+        plain = isinstance(k_, ast.Subscript) and isinstance(k_.slice, ast.Constant) and isinstance(k_.slice.value, str) and is_row(k_.value)
+        rep.check(plain, rule, f"results keyed by a column of the row [{src[:50]}]",
+                  f"the per-country results are stored under `{src[:80]}`, not under a column of the country's row itself: two countries can get the "
+                  "same key and one result silently replaces the other while both are counted in the totals", loc=loc(RMNT, st))
     rep.require_min(rule, 4)
 
 
